@@ -193,7 +193,8 @@ LapLen(s,F,e) ==   \* half a short block of the old and of the new link, whichev
       lo == IF e.rs0 < STREAMSET THEN ln                         \* no decode state: the old side is whatever the stream cursor meets; at most the new half block
             ELSE IF e.cur0 + 1 \in 1..F.nl THEN e.cur0 + 1      \* the link the handle was decoding (at a link end: the one that ends there)
             ELSE IF s.pos >= 0 THEN LinkOf(F, s.pos) ELSE ln
-  IN Min({Shr(F.links[lo].bs0, s.hs), Shr(F.links[ln].bs0, s.hs)}) \div 2
+  IN IF ~(lo \in 1..Len(F.links) /\ ln \in 1..Len(F.links)) THEN 0                 \* no stream description for this handle (damaged-file families that do not log one)
+     ELSE Min({Shr(F.links[lo].bs0, s.hs), Shr(F.links[ln].bs0, s.hs)}) \div 2
 
 NxtSeek(s,F,k,e,flen) ==
   IF e.ret = 0 THEN [s EXCEPT !.pos = IF e.tell >= 0 THEN e.tell ELSE -1, !.lap = IF IsLap(k) THEN LapLen(s,F,e) ELSE 0]
